@@ -251,6 +251,152 @@ package replicaset
   at call(Refilter) assert [refilters-the-untyped-subscription-with-the-given-filter] (and (= $recv {s.filterParent}) (= $0 {f}))
 @*/
 
+/*@ func (*types/replicaset.controller).Cache
+  props C20
+  requires (and (not (= {c} vnil)) (not (= {c.cache} vnil)))
+  ensures (= result {c.cache})
+@*/
+/*@ func (*types/replicaset.subscription).Cache
+  props C20
+  requires (and (not (= {s} vnil)) (not (= {s.cache} vnil)))
+  ensures (= result {s.cache})
+@*/
+/*@ func (*types/replicaset.controller).Clone
+  props C20
+  theory replicasettyped
+  requires (and (not (= {c} vnil)) (not (= {c.parent} vnil)))
+  ghost perr : V := vnil
+  at call(Clone) assert [clones-its-own-untyped-controller] (= $recv {c.parent})
+  at call(Clone).after set perr := $result1
+  exit [errors-are-propagated] (=> (not (= perr vnil)) (and (= result1 perr) (= result0 vnil)))
+  exit [success-wraps-the-clone] (=> (= perr vnil) (and (= result1 vnil) (not (= result0 vnil))))
+@*/
+/*@ func (*types/replicaset.controller).CloneWithFilter
+  props C20
+  theory replicasettyped
+  requires (and (not (= {c} vnil)) (not (= {c.parent} vnil)))
+  ghost perr : V := vnil
+  at call(CloneWithFilter) assert [own-untyped-controller-same-filter] (and (= $recv {c.parent}) (= $0 {f}))
+  at call(CloneWithFilter).after set perr := $result1
+  exit [errors-are-propagated] (=> (not (= perr vnil)) (and (= result1 perr) (= result0 vnil)))
+  exit [success-wraps-the-clone] (=> (= perr vnil) (and (= result1 vnil) (not (= result0 vnil))))
+@*/
+/*@ func (*types/replicaset.controller).SubscribeWithFilter
+  props C20
+  theory replicasettyped
+  requires (and (not (= {c} vnil)) (not (= {c.parent} vnil)))
+  ghost perr : V := vnil
+  at call(SubscribeWithFilter) assert [own-untyped-controller-same-filter] (and (= $recv {c.parent}) (= $0 {f}))
+  at call(SubscribeWithFilter).after set perr := $result1
+  exit [errors-are-propagated] (=> (not (= perr vnil)) (and (= result1 perr) (= result0 vnil)))
+  exit [success-wraps-the-subscription] (=> (= perr vnil) (and (= result1 vnil) (not (= result0 vnil))))
+@*/
+/*@ func (*types/replicaset.controller).SubscribeForFilter
+  props C20
+  theory replicasettyped
+  requires (and (not (= {c} vnil)) (not (= {c.parent} vnil)))
+  ghost perr : V := vnil
+  at call(SubscribeForFilter) assert [own-untyped-controller] (= $recv {c.parent})
+  at call(SubscribeForFilter).after set perr := $result1
+  exit [errors-are-propagated] (=> (not (= perr vnil)) (and (= result1 perr) (= result0 vnil)))
+  exit [success-wraps-the-subscription] (=> (= perr vnil) (and (= result1 vnil) (not (= result0 vnil))))
+@*/
+/*@ func types/replicaset.newFilterSubscription
+  props C20
+  theory replicasettyped
+  fresh result
+  requires (not (= {parent} vnil))
+  at call(newSubscription) assert [wraps-the-same-untyped-subscription] (= $0 {parent})
+  ensures (and (not (= result vnil)) (= (|F!types/replicaset.filterSubscription!filterParent| result) {parent}))
+@*/
+/*@ func types/replicaset.BuildController
+  props C20
+  theory replicasettyped
+  ghost perr : V := vnil
+  at call(NewController) assert [an-untyped-controller-on-the-same-context-log-and-client] (and (= $0 {ctx}) (= $1 {log}) (= $2 {client}))
+  at call(NewController).after set perr := $result1
+  exit [errors-are-propagated] (=> (not (= perr vnil)) (and (= result1 perr) (= result0 vnil)))
+  exit [success-wraps-the-controller] (=> (= perr vnil) (and (= result1 vnil) (not (= result0 vnil))))
+@*/
+/*@ func types/replicaset.NewController
+  props C20
+  requires (not (= {cs} vnil))
+  at call(NewClient) assert [client-for-the-requested-namespace] (and (= $0 {cs}) (= $1 {ns}))
+  at call(BuildController) assert [same-context-and-log] (and (= $0 {ctx}) (= $1 {log}))
+@*/
+
+/*@ func (types/replicaset.handler).OnInitialize
+  props C20 C16
+  at call(dyncall) assert [calls-the-registered-initialize-callback-with-the-same-objects] (and (= $fn {h.onInitialize}) (= $0 {objs}))
+@*/
+/*@ func (types/replicaset.baseHandler).OnCreate
+  props C20 C16
+  at call(dyncall) assert [calls-the-registered-create-callback-with-the-same-object] (and (= $fn {h.onCreate}) (= $0 {obj}))
+@*/
+/*@ func (types/replicaset.baseHandler).OnUpdate
+  props C20 C16
+  at call(dyncall) assert [calls-the-registered-update-callback-with-the-same-object] (and (= $fn {h.onUpdate}) (= $0 {obj}))
+@*/
+/*@ func (types/replicaset.baseHandler).OnDelete
+  props C20 C16
+  at call(dyncall) assert [calls-the-registered-delete-callback-with-the-same-object] (and (= $fn {h.onDelete}) (= $0 {obj}))
+@*/
+/*@ func (types/replicaset.unitaryHandler).OnInitialize
+  props C20
+  at call(dyncall) assert [calls-the-registered-initialize-callback-with-the-same-object] (and (= $fn {h.onInitialize}) (= $0 {obj}))
+@*/
+/*@ func (*types/replicaset.handlerBuilder).OnInitialize
+  props C20 C16
+  requires (not (= {hb} vnil))
+  modifies hb.onInitialize
+  ensures (and (= result {hb}) (= {hb.onInitialize} {fn}))
+@*/
+/*@ func (*types/replicaset.handlerBuilder).OnCreate
+  props C20 C16
+  requires (not (= {hb} vnil))
+  modifies hb.baseHandler
+  ensures (and (= result {hb}) (= (|types/replicaset.baseHandler.onCreate| {hb.baseHandler}) {fn})
+               (= (|types/replicaset.baseHandler.onUpdate| {hb.baseHandler}) (|types/replicaset.baseHandler.onUpdate| (old {hb.baseHandler})))
+               (= (|types/replicaset.baseHandler.onDelete| {hb.baseHandler}) (|types/replicaset.baseHandler.onDelete| (old {hb.baseHandler}))))
+@*/
+/*@ func (*types/replicaset.handlerBuilder).OnUpdate
+  props C20 C16
+  requires (not (= {hb} vnil))
+  modifies hb.baseHandler
+  ensures (and (= result {hb}) (= (|types/replicaset.baseHandler.onUpdate| {hb.baseHandler}) {fn})
+               (= (|types/replicaset.baseHandler.onCreate| {hb.baseHandler}) (|types/replicaset.baseHandler.onCreate| (old {hb.baseHandler})))
+               (= (|types/replicaset.baseHandler.onDelete| {hb.baseHandler}) (|types/replicaset.baseHandler.onDelete| (old {hb.baseHandler}))))
+@*/
+/*@ func (*types/replicaset.handlerBuilder).OnDelete
+  props C20 C16
+  requires (not (= {hb} vnil))
+  modifies hb.baseHandler
+  ensures (and (= result {hb}) (= (|types/replicaset.baseHandler.onDelete| {hb.baseHandler}) {fn})
+               (= (|types/replicaset.baseHandler.onCreate| {hb.baseHandler}) (|types/replicaset.baseHandler.onCreate| (old {hb.baseHandler})))
+               (= (|types/replicaset.baseHandler.onUpdate| {hb.baseHandler}) (|types/replicaset.baseHandler.onUpdate| (old {hb.baseHandler}))))
+@*/
+
+/*@ func types/replicaset.ToUnitary$1
+  props C20
+  requires (and (not (= {delegate} vnil)) (not (= {log} vnil)))
+  at call(OnInitialize) assert [only-for-exactly-one-object-and-with-that-object] (and (= (slen {objs}) 1) (= $0 (select (sarr {objs}) 0)))
+@*/
+/*@ func types/replicaset.ToUnitary$2
+  props C20
+  requires (not (= {delegate} vnil))
+  at call(OnCreate) assert [delegates-create-with-the-same-object] (= $0 {obj})
+@*/
+/*@ func types/replicaset.ToUnitary$3
+  props C20
+  requires (not (= {delegate} vnil))
+  at call(OnUpdate) assert [delegates-update-with-the-same-object] (= $0 {obj})
+@*/
+/*@ func types/replicaset.ToUnitary$4
+  props C20
+  requires (not (= {delegate} vnil))
+  at call(OnDelete) assert [delegates-delete-with-the-same-object] (= $0 {obj})
+@*/
+
 /*@ func types/replicaset.NewMonitor
   props C20 C16
   theory replicasettyped
